@@ -30,8 +30,10 @@ Zero == [c |-> "zero"]                     \* all 132 bytes zero
 Junk == [c |-> "junk"]                     \* uninitialised / garbage memory (magic mismatch)
 Live(id, k) == [c |-> "live", id |-> id, key |-> k]   \* generated nonce number id, bound to public key k
 
-GenClasses == { "ok", "zero_rand", "secnonce_null", "rand_null", "pubnonce_null", "pubkey_null",
+GenClasses == { "ok", "seckey_other", "zero_rand", "secnonce_null", "rand_null", "pubnonce_null", "pubkey_null",
                 "pubkey_invalid", "seckey_invalid", "cache_bad" }
+\* "seckey_other": the optional seckey argument belongs to ANOTHER key than the supplied pubkey (the API does not check that
+\* they correspond): the nonce is bound to the SUPPLIED PUBLIC KEY
 CtrClasses == { "ok", "secnonce_null", "keypair_null", "pubnonce_null", "cache_bad" }
 SignClasses == { "ok", "out_null", "keypair_null", "keypair_invalid", "cache_null", "cache_bad",
                  "session_null", "session_bad", "secnonce_null" }
@@ -67,9 +69,9 @@ Scribble(o) ==      \* an object holding uninitialised memory
 \* ---- secp256k1_musig_nonce_gen ----------------------------------------------------------
 NonceGen(o, b, k, cls) ==
   /\ nextId <= MaxId
-  /\ CASE cls = "ok" ->
+  /\ CASE cls \in { "ok", "seckey_other" } ->
             /\ rand[b] = "fresh"
-            /\ obj' = [obj EXCEPT ![o] = Live(nextId, k)]
+            /\ obj' = [obj EXCEPT ![o] = Live(nextId, k)]       \* bound to the supplied public key k in both classes
             /\ rand' = [rand EXCEPT ![b] = "zero"]           \* RandWipedOnSuccess
             /\ nextId' = nextId + 1
             /\ last' = Label("NonceGen", << o, b, k, cls >>, 1, 0)
